@@ -44,6 +44,11 @@ ASSUMPTIONS = [
     "with integers bounded by 2**53 so that NumPy's own int->float promotion is exact",
     "strings are printable ASCII or Latin-1/BMP text without NUL (NumPy fixed-width strings cannot hold trailing NUL)",
     "flag classes use auto() values only (dense bit positions, as armi.reactor.flags.Flags)",
+    "l2_reactor keeps integers below 2**63: Database._readParams hands Python lists to the parameter setters and the "
+    "ndarray setters of real parameters (np.array(value)) turn a mix of int64- and uint64-sized ints into float64; that "
+    "is the setter's doing, not the encoding (l0/l1 cover the whole uint64 range)",
+    "Python ints that need uint64 are generated only as scalar columns where every value is >= 2**63 (NumPy types nested "
+    "lists entry by entry, and np.array() of a mix of int64- and uint64-sized ints is float64 before armi sees it)",
 ]
 
 # signatures of candidate genuine defects (AUTHORING rule 3); True = the main generators skip the triggering shape
@@ -51,7 +56,8 @@ SIG_UNSIGNED = "sentinel/unsigned-none-marker-mismatch"
 SIG_CAST_FIRST = "sentinel/column-cast-to-first-entry-type"
 SIG_NPSCALAR = "jagged/numpy-scalar-entry-dropped"
 SIG_INNER = "jagged/inner-ragged-shape-not-a-tuple"
-EXCLUDE_KNOWN = {SIG_UNSIGNED: True, SIG_CAST_FIRST: True, SIG_NPSCALAR: True, SIG_INNER: True}
+# SIG_UNSIGNED, SIG_NPSCALAR, SIG_INNER were repaired in /repo (fix: commits 94abe09, 49e27f7, 15eebec): searched again; SIG_CAST_FIRST is a known finding
+EXCLUDE_KNOWN = {SIG_UNSIGNED: False, SIG_CAST_FIRST: True, SIG_NPSCALAR: False, SIG_INNER: False}
 if os.environ.get("VP_C05_NOEXCLUDE"):  # debugging aid: "all" or a comma-separated list of signatures to search again
     _which = os.environ["VP_C05_NOEXCLUDE"]
     for _k in EXCLUDE_KNOWN:
@@ -484,8 +490,8 @@ def known_shape(values, route):
         ftype = type(first)
     if ftype is None:
         return None
-    if isinstance(ftype, type) and issubclass(ftype, np.unsignedinteger):
-        return SIG_UNSIGNED
+    if isinstance(ftype, type) and issubclass(ftype, np.unsignedinteger) and EXCLUDE_KNOWN.get(SIG_UNSIGNED):
+        return SIG_UNSIGNED  # (only while that defect is open; after its repair unsigned columns follow the integer rules)
     if ftype is int or (isinstance(ftype, type) and issubclass(ftype, np.integer)):
         for v in values:
             if v is None:
@@ -495,8 +501,18 @@ def known_shape(values, route):
                 # the int64 placeholder, before everything is cast back to the first row's integer type
                 if np.array(v).dtype.kind == "f":
                     return SIG_CAST_FIRST
-            elif isinstance(v, (float, np.floating)) and math.isfinite(v) and float(v) != math.floor(float(v)):
-                return SIG_CAST_FIRST
+            elif isinstance(v, (int, float, np.integer, np.floating)) and not isinstance(v, (bool, np.bool_)):
+                # a number that the first entry's integer type cannot hold exactly (non-integral, negative for an
+                # unsigned type, out of range): the cast to the first entry's type changes it
+                fv = float(v)
+                if isinstance(v, (float, np.floating)) and not math.isfinite(fv):
+                    continue  # NaN/inf among integers: not judged here
+                if fv != math.floor(fv):
+                    return SIG_CAST_FIRST
+                if ftype is not int:
+                    info = np.iinfo(ftype)
+                    if not (info.min <= int(fv) <= info.max):
+                        return SIG_CAST_FIRST
     return None
 
 
@@ -1233,6 +1249,21 @@ def l2_strategy(tier):
     )
 
 
+def _map_ints(col, fn):
+    def m(e):
+        if isinstance(e, bool) or e is None:
+            return e
+        if isinstance(e, int):
+            return fn(e)
+        if isinstance(e, dict):
+            return {k: ([m(x) for x in v] if k in ("pool", "rag") else v) for k, v in e.items()}
+        return e
+
+    res = dict(col)
+    res["e"] = [m(e) for e in col["e"]]
+    return res
+
+
 def _path(obj):
     names = []
     while obj is not None:
@@ -1263,6 +1294,14 @@ def l2_execute(case):
     out = Out()
     _ensure_workdir()
     col = case["col"]
+    if col["dt"] in ("uint64", "py:big"):
+        # Database._readParams hands Python lists to the parameter setters; the ndarray setters of real parameters
+        # re-type them and NumPy makes float64 of ints that mix the int64 and uint64 ranges.  That is the setter, not
+        # the encoding: keep real-parameter values below 2**63 (l0/l1 cover the full uint64 range).
+        if col["dt"] == "py:big":
+            out.label("skipped:py-big-on-real-parameter")
+            return out
+        col = _map_ints(col, lambda v: v % (2**63))
     level, pname = _L2_TARGETS[case["target"]]
     cs, bp, r = rg.build(case["spec"])
     objs = _l2_objects(r, level, case["compType"])
@@ -1420,31 +1459,31 @@ def flags_execute(case):
 
 
 PARTS = [
-    Part("l0_sentinel", sentinel_execute, strategy=sentinel_strategy, budget={"quick": 1500, "thorough": 40000},
+    Part("l0_sentinel", sentinel_execute, strategy=sentinel_strategy, budget={"quick": 1200, "thorough": 40000},
          procs={"quick": 2, "thorough": 8},
          rule="Hypothesis: scalar columns of every int/uint width, float width, bool, str (Python and NumPy scalars), equally "
               "shaped n-d arrays, mixed-kind scalars; any None pattern; layout.replaceNonesWithNonsense -> "
               "replaceNonsenseWithNones in memory; non-trivial = some but not all entries None; oracle: same values, kinds, "
               "unset positions (NaN = unset)"),
-    Part("l0_pack", pack_execute, strategy=pack_strategy, budget={"quick": 3000, "thorough": 90000},
+    Part("l0_pack", pack_execute, strategy=pack_strategy, budget={"quick": 2400, "thorough": 90000},
          procs={"quick": 4, "thorough": 16},
          rule="Hypothesis: columns of 8 classes (scalar, fixed n-d, ragged, scalar among sequences, inner-ragged, dict[str,float], "
               "mixed-kind scalars/sequences) x 18 dtypes x list/tuple/ndarray forms x None patterns; np.array / 1-D object array / "
               "JaggedArray -> packSpecialData -> real h5py dataset + _writeAttrs -> _resolveAttrs -> unpackSpecialData; "
               "non-trivial = column mixes >= 2 of {None, ragged, n-d, non-default dtype, dict, mixed kind}; oracle: documented normal form equal"),
-    Part("l1_database", l1_execute, strategy=l1_strategy, budget={"quick": 2500, "thorough": 70000},
+    Part("l1_database", l1_execute, strategy=l1_strategy, budget={"quick": 2000, "thorough": 70000},
          procs={"quick": 6, "thorough": 16},
          rule="Hypothesis: 1-3 such columns + a Flags column assigned to the parameters of a probe Composite subclass (parameters "
               "with default None / 0 / 0.0 / '' / False, one with FlagSerializer), real Database._writeParams -> HDF5 group -> "
               "Database._readParams into fresh objects; non-trivial as in l0_pack; oracle: documented normal form equal, all-unset "
               "column stores nothing, flag names equal, unassigned parameters keep their default"),
-    Part("l2_reactor", l2_execute, strategy=l2_strategy, budget={"quick": 240, "thorough": 6000},
+    Part("l2_reactor", l2_execute, strategy=l2_strategy, budget={"quick": 200, "thorough": 6000},
          procs={"quick": 4, "thorough": 16},
          rule="Hypothesis: a generated hex reactor (vp/gen/reactor.py, <= 7 assemblies x 2 blocks) and one column assigned to a real "
               "parameter of all blocks / components of one shape class / assemblies / the core (mgFlux, pinMgFluxes, linPowByPin, "
               "reactionRates, pinNum, detailedNDens with its ndarray setter, powerDecay, beta, ...), Database.writeToDB -> load; "
               "objects matched by name path; non-trivial as in l0_pack and >= 2 objects; oracle: documented normal form equal"),
-    Part("flags", flags_execute, strategy=flags_strategy, budget={"quick": 1200, "thorough": 30000},
+    Part("flags", flags_execute, strategy=flags_strategy, budget={"quick": 1000, "thorough": 30000},
          procs={"quick": 2, "thorough": 8},
          rule="Hypothesis: two fresh armi.utils.flags.Flag classes with 1-70 auto() fields; reader = same class / same order / "
               "permutation / permutation with dropped and added fields (added at definition or through extend()); 1-12 flag values; "
